@@ -2,7 +2,9 @@
 (* C29 — every grammar reference reachable from a dialect's root resolves.
 
    The model is *extracted*: for each bundled dialect, harness/vf/dialect_graph.py walks the expanded
-   library (Dialect.expand) and writes module DialectGraphData:
+   library (Dialect.expand) and writes the data below as one JSON document, read once at start-up through
+   IOEnv.VF_GRAPH (TLC's cfg files cannot hold tuples, and SANY needs minutes for a generated 1.5 MB
+   module; the JSON reader needs a second).  One entry per dialect:
      NameOf[d]    names; ids 1..NDefined[d] are the defined elements (library entries, plus one pseudo
                   element "@bracket_pairs" / "@angle_bracket_pairs" per bracket set), larger ids are names
                   that are referenced somewhere but not defined
@@ -19,7 +21,15 @@
    does not resolve, and Finish emits them all (the run must not stop at the first one).
    Binding to the code: ObservedOf[d] \subseteq seen — a name the parser really resolved that the model does
    not reach means the extractor missed an edge (reported as `unexplained`, a machinery failure).   *)
-EXTENDS Naturals, Sequences, FiniteSets, TLC, Json, FiniteSetsExt, SequencesExt, DialectGraphData
+EXTENDS Naturals, Sequences, FiniteSets, TLC, Json, IOUtils, FiniteSetsExt, SequencesExt
+
+Data       == JsonDeserialize(IOEnv.VF_GRAPH)
+Dialects   == Data.Dialects
+NDefined   == Data.NDefined
+RootOf     == Data.RootOf
+NameOf     == Data.NameOf
+EdgesOf    == Data.EdgesOf        \* JSON arrays: EdgesOf[d][n] is a sequence of ids
+ObservedOf == Data.ObservedOf
 
 VARIABLES d,         \* dialect index
           todo,      \* reached, not yet visited
@@ -29,13 +39,13 @@ VARIABLES d,         \* dialect index
 vars == <<d, todo, seen, dangling, done>>
 
 Resolves(n)  == n >= 1 /\ n <= NDefined[d]
-Edges(n)     == EdgesOf[d][n]
+Edges(n)     == ToSet(EdgesOf[d][n])
 Name(n)      == NameOf[d][n]
 
 Init == /\ d \in 1..Len(Dialects)
         /\ todo = {RootOf[d]} /\ seen = {RootOf[d]} /\ dangling = {} /\ done = FALSE
 Visit == /\ ~done /\ todo # {}
-         /\ LET n == Min(todo) IN
+         /\ LET n == CHOOSE x \in todo : TRUE IN     \* TLC picks deterministically; any order reaches the same sets
             IF Resolves(n)
             THEN /\ todo' = (todo \ {n}) \cup (Edges(n) \ seen)
                  /\ seen' = seen \cup Edges(n)
@@ -47,8 +57,8 @@ Finish == /\ ~done /\ todo = {} /\ done' = TRUE
                             reachable   |-> Cardinality(seen),
                             defined     |-> NDefined[d],
                             dangling    |-> SetToSeq({[from |-> Name(p[1]), to |-> Name(p[2])] : p \in dangling}),
-                            unexplained |-> SetToSeq(ObservedOf[d] \ seen),
-                            observed    |-> Cardinality(ObservedOf[d])]))
+                            unexplained |-> SetToSeq(ToSet(ObservedOf[d]) \ seen),
+                            observed    |-> Len(ObservedOf[d])]))
           /\ UNCHANGED <<d, todo, seen, dangling>>
 Next == Visit \/ Finish
 Spec == Init /\ [][Next]_vars
@@ -60,5 +70,5 @@ ReferencesResolve == \A n \in seen : Resolves(n)
 TypeOK == /\ Len(NDefined) = Len(Dialects) /\ Len(RootOf) = Len(Dialects) /\ Len(EdgesOf) = Len(Dialects)
           /\ Resolves(RootOf[d]) /\ Len(EdgesOf[d]) = NDefined[d]
           /\ \A n \in seen : n \in 1..Len(NameOf[d])
-          /\ dangling \subseteq (seen \X seen)
+          /\ \A p \in dangling : p[1] \in seen /\ p[2] \in seen /\ Resolves(p[1]) /\ ~Resolves(p[2])
 ===============================================================================
